@@ -17,6 +17,7 @@ import (
 	"sync/atomic"
 	"time"
 
+	"github.com/alicebob/miniredis/v2/server"
 	sessionsapi "github.com/oauth2-proxy/oauth2-proxy/v7/pkg/apis/sessions"
 	"github.com/oauth2-proxy/oauth2-proxy/v7/pkg/requests"
 	"github.com/oauth2-proxy/oauth2-proxy/v7/providers"
@@ -621,7 +622,81 @@ func init() {
 				e.close()
 			}
 		}
-		c.close([]string{"c13:faulted", "c13:no-fault", "serve:storefault:refresh", "serve:storedata:trunc5", "kind:notReady", "kind:errorPage", "redisfault:hit", "c13:sweep:bitflip", "c13:sweep:cut", "c13:outage", "c13:del-always"})
+		// ---- connection-level failures, in a process that read the session successfully a moment ago: Redis closes the connection
+		// without answering (a TCP proxy whose backend is gone, a fail-over in progress), Redis is not listening at all
+		// (Spring-style health paths: readiness BELOW liveness — each endpoint answers for exactly its own path)
+		if e, err := newEnv(c, proxyCfg{Redis: true, CookieRefresh: time.Hour, InjectRequest: defaultInject(), HealthPaths: [2]string{"/actuator/health", "/actuator/health/readiness"}}); err == nil {
+			b := newBrowser()
+			if vr := e.do(reqSpec{Target: "/ready"}); vr.Status != 200 {
+				c.violation("C13", "readiness endpoint not ready although the store is healthy", map[string]interface{}{"status": vr.Status, "ready_path": e.opts.ReadyPath})
+			}
+			if lr := e.login(b, u, "/"); lr.OK {
+				ck := b.cookieHeader()
+				warm := len(e.do(reqSpec{Target: "/app/warm", Cookie: ck}).Hits) > 0
+				servedAs := func(v *respView) bool { return len(v.Hits) > 0 || v.Status == 200 || v.Status == 202 }
+				for _, target := range []string{"/app/x", "/oauth2/auth", "/oauth2/userinfo"} {
+					e.redisFault = map[string]string{"GET": "drop-always"}
+					v := e.do(reqSpec{Target: target, Cookie: ck})
+					e.redisFault = nil
+					c.casen("c13|conn-dropped|"+target, fmt.Sprint(v.Status))
+					c.count("c13:connection-dropped")
+					if servedAs(v) {
+						c.violation("C13", "a request was served as authenticated although the read of its session failed: Redis closed the connection without a reply (the same process had read that session successfully a moment before)",
+							map[string]interface{}{"target": target, "status": v.Status, "earlier_request_served": warm, "fault": "every GET: connection closed without a reply"})
+					}
+				}
+				e.mr.Close()
+				for _, target := range []string{"/app/x", "/oauth2/auth"} {
+					v := e.do(reqSpec{Target: target, Cookie: ck})
+					c.casen("c13|not-listening|"+target, fmt.Sprint(v.Status))
+					c.count("c13:redis-not-listening")
+					if servedAs(v) {
+						c.violation("C13", "a request was served as authenticated while Redis was not listening at all (connection refused; the same process had read that session successfully a moment before)",
+							map[string]interface{}{"target": target, "status": v.Status, "earlier_request_served": warm})
+					}
+				}
+				if vr := e.do(reqSpec{Target: "/ready"}); vr.Status == 200 {
+					c.violation("C13", "readiness endpoint reports ready while Redis is not listening", map[string]interface{}{"status": vr.Status, "ready_path": e.opts.ReadyPath, "ping_path": e.opts.PingPath})
+				}
+				if err := e.mr.Restart(); err == nil {
+					if servedAs(e.do(reqSpec{Target: "/app/back", Cookie: ck})) {
+						c.count("c13:served-again-after-redis-came-back")
+					}
+					// a login while every write's connection is closed without a reply: no cookie for a session that was not stored
+					e.mr.Server().SetPreHook(func(p *server.Peer, cmd string, args ...string) bool {
+						if strings.ToUpper(cmd) == "SET" && e.redisFault["SET"] == "drop-always" {
+							p.Close()
+							return true
+						}
+						return false
+					})
+					e.redisFault = map[string]string{"SET": "drop-always"}
+					nb := newBrowser()
+					lr2 := e.login(nb, u, "/")
+					e.redisFault = nil
+					c.casen("c13|set-dropped", fmt.Sprint(lr2.OK))
+					c.count("c13:write-connection-dropped")
+					if hasAnySessionCookie(nb, e.opts.Cookie.Name) {
+						if v := e.do(reqSpec{Target: "/app/after-login", Cookie: nb.cookieHeader()}); !servedAs(v) {
+							st := 0
+							if lr2.CallbackResp != nil {
+								st = lr2.CallbackResp.Status
+							}
+							c.violation("C13", "a login handed out a session cookie although the session was never stored: Redis closed the connection on every SET without a reply, the callback still answered with the cookie",
+								map[string]interface{}{"callback_status": st, "redis_keys": len(e.redisKeys()), "next_request_status": v.Status})
+						}
+					}
+				} else {
+					c.violation("HARNESS", "miniredis restart: "+err.Error(), nil)
+				}
+			} else {
+				c.violation("HARNESS", "login failed (connection-level faults)", nil)
+			}
+			e.close()
+		} else {
+			c.violation("HARNESS", "env: "+err.Error(), nil)
+		}
+		c.close([]string{"c13:connection-dropped", "c13:redis-not-listening", "c13:write-connection-dropped", "c13:faulted", "c13:no-fault", "serve:storefault:refresh", "serve:storedata:trunc5", "kind:notReady", "kind:errorPage", "redisfault:hit", "c13:sweep:bitflip", "c13:sweep:cut", "c13:outage", "c13:del-always"})
 	})
 
 	registerSuite("idpfaults", func(c *suiteCtx) {
